@@ -54,33 +54,39 @@ def jItemsM (f : Val → Option Val) : List Val → Option (List Val)
   | [] => some []
   | x :: xs => do let a ← f x; let b ← jItemsM f xs; some (a :: b)
 
-def jEntriesM (f : Val → Option Val) : List (Val × Val) → Option (List (Val × Val))
+def jEntriesM (kok : String → Bool) (f : Val → Option Val) : List (Val × Val) → Option (List (Val × Val))
   | [] => some []
   | (k, x) :: rest => do
     match k with
     | .str s =>
+      if !kok s then none
       let a ← f x
-      let b ← jEntriesM f rest
+      let b ← jEntriesM kok f rest
       some ((.str s, a) :: b)
     | _ => none
 
 def jFieldsM (f : Schema → Val → Option Val) : List Field → List (Val × Val) → Option (List (Val × Val))
   | [], _ => some []
   | fld :: rest, kv => do
-    let dv := match dictGetV kv fld.name with
-      | some x => x
-      | none => fld.default.getD .none
+    let dv := presentOrDefault kv fld
     let a ← f fld.type dv
     let b ← jFieldsM f rest kv
     some ((.str fld.name, a) :: b)
 
-def jsonEncode (pick : Nat → List Schema → Val → Option (Nat × Val)) (fuel : Nat) (env : Env) (s : Schema) (v : Val) :
-    Option Val :=
+/-- the same, for data whose floating-point fields hold floating-point values (no integers there) -/
+def jsonPrimFloats (p : Prim) (v : Val) : Option Val :=
+  match p, v with
+  | .float, .int _ => none
+  | .double, .int _ => none
+  | p, v => jsonPrim p v
+
+def jsonEncodeWith (jp : Prim → Val → Option Val) (kok : String → Bool) (pick : Nat → List Schema → Val → Option (Nat × Val)) (fuel : Nat)
+    (env : Env) (s : Schema) (v : Val) : Option Val :=
   match fuel with
   | 0 => none
   | fuel+1 =>
   match s with
-  | .prim p _ none => jsonPrim p v
+  | .prim p _ none => jp p v
   | .prim _ _ (some _) => none
   | .fixed _ size none _ =>
     match v with
@@ -93,29 +99,34 @@ def jsonEncode (pick : Nat → List Schema → Val → Option (Nat × Val)) (fue
     | _ => none
   | .array items =>
     match v with
-    | .list xs => (jItemsM (jsonEncode pick fuel env items) xs).map .list
-    | .tuple xs => (jItemsM (jsonEncode pick fuel env items) xs).map .list
+    | .list xs => (jItemsM (jsonEncodeWith jp kok pick fuel env items) xs).map .list
+    | .tuple xs => (jItemsM (jsonEncodeWith jp kok pick fuel env items) xs).map .list
     | _ => none
   | .map values =>
     match v with
-    | .dict kv => (jEntriesM (jsonEncode pick fuel env values) kv).map .dict
+    | .dict kv => (jEntriesM kok (jsonEncodeWith jp kok pick fuel env values) kv).map .dict
     | _ => none
   | .union bs =>
     match pick fuel bs v with
     | some (i, v') =>
       match bs[i]? with
       | some b => do
-        let j ← jsonEncode pick fuel env b v'
+        let j ← jsonEncodeWith jp kok pick fuel env b v'
         if isNull env b then some j else some (.dict [(.str (jsonBranchName b), j)])
       | none => none
     | none => none
   | .record _ fields _ =>
     match v with
-    | .dict kv => (jFieldsM (jsonEncode pick fuel env) fields kv).map .dict
+    | .dict kv => (jFieldsM (jsonEncodeWith jp kok pick fuel env) fields kv).map .dict
     | _ => none
   | .ref n =>
     match env.get? n with
-    | some s' => jsonEncode pick fuel env s' v
+    | some s' => jsonEncodeWith jp kok pick fuel env s' v
     | none => none
+
+/-- the specification's JSON encoding -/
+def jsonEncode := jsonEncodeWith jsonPrim (fun _ => true)
+/-- the same on the fragment: floating-point fields hold floating-point values, map keys are not empty -/
+def jsonEncodeCore := jsonEncodeWith jsonPrimFloats (fun s => !s.isEmpty)
 
 end Spec
